@@ -83,6 +83,28 @@ def _ix(r, bools, ints, w, depth):
 
 
 def gen_g(r, name):
+    """gen_g0, and in a sixth of the cases the LAST argument of the signature -- when it is a parameter -- gets a default
+    value (a legal Python signature; bind must still use the value it is given, whatever its truth value)"""
+    src, params, args, ret, t, defs = gen_g0(r, name)
+    if r.random() < 0.17:
+        try:
+            tr = ast.parse(src)
+            fd = tr.body[0]
+            last = fd.args.args[-1]
+            ptypes = dict(params)
+            if last.arg in ptypes and not fd.args.defaults:
+                dv = gen_value08(ptypes[last.arg], r)
+                if r.random() < 0.5:
+                    dv = {"bool": True}.get(ptypes[last.arg], dv)  # a truthy default invites "falsy means missing"
+                fd.args.defaults = [literal(dv)]
+                src = ast.unparse(ast.fix_missing_locations(tr)) + "\n"
+                t = t + "+default"
+        except Exception:
+            pass
+    return src, params, args, ret, t, defs
+
+
+def gen_g0(r, name):
     """(src, params [(name, type)], args [(name, type)], ret, template, defs)"""
     t = wchoice(r, [("mix", 5), ("loop_sum", 1), ("bool_list", 1.2), ("lookup", 1), ("tuple", 1), ("const_index", 0.5), ("range", 0.4), ("with_def", 1.5), ("ifstmt", 1), ("list_tuples", 0.5),
                     ("builtins", 1.5), ("two_lists", 0.8), ("inner_def", 1.2), ("minmax", 0.6),
@@ -459,11 +481,23 @@ class _Subst(ast.NodeTransformer):
         return n
 
 
+def _drop_params(fd, values):
+    """remove the arguments named in `values` from a FunctionDef together with THEIR default values"""
+    args = fd.args.args
+    nd = len(fd.args.defaults)
+    dflt = [None] * (len(args) - nd) + list(fd.args.defaults)
+    keep = [(a, d) for a, d in zip(args, dflt) if a.arg not in values]
+    # a default may only follow defaults: drop the defaults of kept arguments that precede a kept argument without one
+    last_plain = max([i for i, (_, d) in enumerate(keep) if d is None], default=-1)
+    fd.args.args = [a for a, _ in keep]
+    fd.args.defaults = [d for i, (_, d) in enumerate(keep) if d is not None and i > last_plain]
+
+
 def specialise(src, values):
     """independent of the library: drop the Parameter[...] arguments, put literals where they were read"""
     t = ast.parse(src)
     fd = t.body[0]
-    fd.args.args = [a for a in fd.args.args if a.arg not in values]
+    _drop_params(fd, values)
     fd.body = [_Subst(values).visit(st) for st in fd.body]
     return ast.unparse(ast.fix_missing_locations(t)) + "\n"
 
@@ -474,7 +508,7 @@ def injected(src, values):
     t = ast.parse(src)
     fd = t.body[0]
     names = [a.arg for a in fd.args.args if a.arg in values]
-    fd.args.args = [a for a in fd.args.args if a.arg not in values]
+    _drop_params(fd, values)
     pre = [ast.Assign(targets=[ast.Name(id=n, ctx=ast.Store())], value=literal(values[n])) for n in names]
     fd.body = pre + fd.body
     return ast.unparse(ast.fix_missing_locations(t)) + "\n"
@@ -550,7 +584,7 @@ def injected_typed(src, values, params):
                 return None  # typed leaves inside a list / tuple cannot be written as typed constants here
             val = literal(v)
         pre.append(ast.Assign(targets=[ast.Name(id=a.arg, ctx=ast.Store())], value=val))
-    fd.args.args = [a for a in fd.args.args if a.arg not in values]
+    _drop_params(fd, values)
     fd.body = pre + fd.body
     return ast.unparse(ast.fix_missing_locations(t)) + "\n"
 
@@ -1071,18 +1105,18 @@ def run_segment(plan, ctx, detail=False, table=None):
                                     spec_memo[ck] = (None, "rejected:" + type(e).__name__)
                             hand, hand_state = spec_memo[ck]
                             shared_ = hand is not None and hand == mine
-                            # Strict where the unchanged tree is right on everything generated (default profile, some
-                            # input left): a bound function whose circuit does not compute its table violates the
-                            # statement whoever is to blame. The fast profile's circuits -- and functions with no input
-                            # left, whose output_qubits raise -- already disagree with or without binding on the
-                            # unchanged tree (C02's matter, DESIGN 10.18): there the check can only be differential
-                            if shared_ and (ua["opt"] != "default" or nin_ == 0):
-                                probe("circuit_differs_from_table_with_or_without_binding_(C02_matter)")
+                            # Differential on purpose (DESIGN 10.18): on the unchanged tree the compiler's circuits
+                            # disagree with their tables for some programs WITH OR WITHOUT binding (fast profile often,
+                            # default profile rarely, functions with no input left always: output_qubits raises) --
+                            # C02's matter. Only a bound circuit that differs from the circuit of the hand-built
+                            # specialisation compiled with the same options is binding's doing
+                            if shared_:
+                                probe("circuit_differs_from_table_with_or_without_binding_(C02_matter):" + ua["opt"])
+                            elif hand is None:
+                                probe("circuit_differs_from_table_and_no_hand_built_circuit_to_compare_(no_verdict)")
                             else:
-                                if shared_:
-                                    probe("B6_strict_shared_with_hand_built_form")
                                 bad_ = next(i_ for i_, (m_, w_) in enumerate(zip(mine, want_rows)) if m_ != w_)
-                                violation = viol("B6", op, ["the compiled circuit of the bound function does not compute its truth table" + ("; neither does the circuit of the program with the assignments prepended by hand (a compiler defect met through binding)" if shared_ else ", unlike (or unverifiable against) the circuit of the program with the assignments prepended by hand")],
+                                violation = viol("B6", op, ["the compiled circuit of the bound function does not compute its truth table, unlike the circuit of the program with the assignments prepended by hand"],
                                                  at=canon(rows[bad_][:nin_]), got=str(mine[bad_]), hand=hand_state if hand is None else str(hand[bad_]), values=a["values"], order=a["order"])
                     # B1 first: the unbound program as plain Python, parameters set to v
                     b1 = None
